@@ -319,7 +319,7 @@ func safeDecode(n *yaml.Node) (v any, err error, dur time.Duration) {
 var rec = ev.New("TestPropAnchorGraphs", "anchor/alias/merge graphs generated as yaml.Node trees: 8 anchor names (re-defined later on purpose), aliases as values, sequence items and mapping keys, merges with a single alias, sequences and nested sequences of aliases, inline mappings, repeated << keys, merges through merges, forced key overlaps (6-key alphabet, int/bool look-alike keys), and back-edges (alias to an enclosing anchored node) through values, sequences and merges; expansion bounded to 20000 nodes; oracle 1 = reference resolver written from the merge-key specification (content and order; value cycle => error, merge cycle => tolerated), oracle 2 = yaml.v3's own Decode when it accepts the document, oracle 3 = independence of copies, oracle 4 = no panic, returns promptly; also through pipeline.Parse with the graph under an unknown top-level key; non-trivial = >= 2 merge sources with overlapping keys, or a merge reached through a merge, or a cycle; distinct by hash of the YAML text")
 
 func TestPropAnchorGraphs(t *testing.T) {
-	ev.Check(t, 30000, 200000, func(t *rapid.T) {
+	ev.Check(t, 30000, 400000, func(t *rapid.T) {
 		g := &gg{t: t, latest: map[string]*yaml.Node{}, open: map[*yaml.Node]bool{}, mergeSeqs: map[*yaml.Node]bool{}}
 		g.backEdges = rapid.IntRange(0, 3).Draw(t, "backedges") == 0
 		root := doc.MapNode(false)
